@@ -155,11 +155,14 @@ def encPhrase (p : Phrase) : Bytes :=
 
 def encPhrases (ps : List Phrase) : Bytes := ps.flatMap encPhrase
 
+/-- the queue entry of a node's leaf (`leaf_id`) -/
+def leafItem : Option (List Phrase) → List Item
+  | some ps => [Item.leaf ps]
+  | none => []
+
 /-- the queue entries a node contributes: its leaf first, then its children sorted by syllable -/
 def kidsOf (l : Option (List Phrase)) (sub : Forest) : List Item :=
-  (match l with
-   | some ps => [Item.leaf ps]
-   | none => []) ++ sortBy (fun a b => decide (a.syl < b.syl)) sub.toItems
+  leafItem l ++ sortBy (fun a b => decide (a.syl < b.syl)) sub.toItems
 
 /-- an index record: (u32 field, u16 field, u16 field) -/
 abbrev Rec := Nat × Nat × Nat
